@@ -92,7 +92,7 @@ class Locality(Family):
         # adaptive strategies with a window of 3 samples (with a = 2 both sides truncate to 1 and window effects of far
         # averages are invisible): one configuration in quick, both strategies and both ends in thorough
         for s in (("LinearAdaptiveRFA",) if tier == "quick" else ("LinearAdaptiveRFA", "ExpAdaptiveRFA")):
-            for j in ((0,) if tier == "quick" else (0, 4)):
+            for j in ((0,) if (tier == "quick" or s.startswith("Exp")) else (0, 4)):
                 p = {"alpha": "1"} if s.startswith("Linear") else {"alpha": "1", "beta": "1/2", "exp": "2"}
                 out.append({"strategy": s, "m": 5, "n": 3, "grid": ["0", "1", "2", "3", "4"], "p": p, "j": j})
         # long series for the strategies without value-dependent branches: a dependence on a far-away average shows
@@ -149,7 +149,7 @@ class Linearity(Family):
 
 
 META = {
-    "budget_s": {"quick": 300, "thorough": 2100},
+    "budget_s": {"quick": 300, "thorough": 2400},
     "explanation": "Two (or four) executions of the real strategy inside ONE symbolic run: the map parameters (a, b), "
                    "(c, d), the changed average and the second series are solver variables, so 'commutes for every "
                    "real map' is literally the quantifier z3 decides. In exact arithmetic the commutation also holds "
